@@ -53,6 +53,12 @@ def f2(a, b, c):
 def g0(a):
     yield a
 
+def Session(a):
+    return a
+
+def session(a):
+    return a
+
 class K:
     def m(self, a, b):
         return b
@@ -138,8 +144,12 @@ def build_scenario(rnd, fx, idx):
     directed = idx % 6 == 0           # the recorded ambiguous-ancestor shape
     gen = make_values(rnd, fx, k)
     funcs = [("f0", fx.f0, ["a", "b"]), ("f1", fx.f1, ["a"]), ("f2", fx.f2, ["a", "b", "c"]), ("g0", fx.g0, ["a"]),
-             ("K.m", fx.K.m, ["a", "b"]), ("K.cm", fx.K.__dict__["cm"].__func__, ["a"]), ("K.sm", fx.K.__dict__["sm"], ["a"])]
+             ("K.m", fx.K.m, ["a", "b"]), ("K.cm", fx.K.__dict__["cm"].__func__, ["a"]), ("K.sm", fx.K.__dict__["sm"], ["a"]),
+             ("Session", fx.Session, ["a"]), ("session", fx.session, ["a"])]
     chosen = rnd.sample(funcs, rnd.choice([1, 2, 3, 4]))
+    if idx % 5 == 4:
+        # two functions whose names differ only in case: their order in the stub must not follow the order of the rows
+        chosen = [f for f in chosen if f[0].lower() != "session"] + funcs[-2:]
     traces = []
     for q, fn, names in chosen:
         for _ in range(rnd.choice([1, 2, 3, 5, 7])):
@@ -150,6 +160,13 @@ def build_scenario(rnd, fx, idx):
             else:
                 ret = None if rnd.random() < 0.1 else get_type(gen(2), k)
                 traces.append(CallTrace(fn, args, ret))
+    if idx % 4 == 2:
+        # two calls whose argument types are a rearrangement of each other
+        for q, fn, names in (chosen if any(len(c[2]) >= 2 for c in chosen) else chosen + [funcs[0]]):
+            if len(names) >= 2:
+                t1, t2 = rnd.sample([int, str, bytes, float, type(None)], 2)
+                traces.append(CallTrace(fn, {names[0]: t1, names[1]: t2}, type(None)))
+                traces.append(CallTrace(fn, {names[0]: t2, names[1]: t1}, type(None)))
     if idx % 3 == 1:
         # traces of one generator with identical argument and return types that differ ONLY in what was yielded
         for yt in rnd.sample([int, str, bytes, type(None), float], 3):
@@ -182,14 +199,29 @@ def build_scenario(rnd, fx, idx):
             pn = f"p{i:02d}"
             traces.append(CallTrace(fn, {pn: get_type({f"id{i:02d}": i, f"note{i:02d}": "n"}, 3)}, type(None)))
             traces.append(CallTrace(fn, {pn: get_type({f"id{i:02d}": i}, 3)}, type(None)))
+    pressure = idx % 6 == 1
+    if pressure:
+        # typing's subscription cache (128 entries, shared by all generic aliases) under pressure: two rows of one function whose
+        # dict argument has the same parametrised key type, with 125 rows of other generic types (175 distinct parametrisations) decoded between them in the
+        # one-run-per-day presentations (and next to each other in the reference): equal key types that are not the same object
+        import itertools
+        k, rewrite = 0, True
+        # (Tuple[...] has a cache of its own: the fillers are Dict / List parametrisations, 175 distinct ones)
+        fillers = [{a: [{b: c}]} for a, b, c in itertools.product([1, "s", 2.5, b"x", None], repeat=3)]
+        rnd.shuffle(fillers)
+        kt = rnd.choice([int, str, fx.P])
+        traces = ([CallTrace(fx.K.m, {"a": get_type({kt: 1}, 0), "b": int}, type(None))]
+                  + [CallTrace(fx.f1, {"a": get_type(t, 0)}, type(None)) for t in fillers]
+                  + [CallTrace(fx.K.m, {"a": get_type({kt: "s"}, 0), "b": int}, type(None))])
+        directed = False
     if directed:
         for c in (fx.B1, fx.B2, fx.B3, fx.C1, fx.C2, fx.C3):
             traces.append(CallTrace(fx.f1, {"a": c}, type(None)))
         rewrite = True
-    return {"k": k, "rewrite": rewrite, "traces": traces, "directed": directed}
+    return {"k": k, "rewrite": rewrite, "traces": traces, "directed": directed, "pressure": pressure}
 
 
-def presentations(rnd, traces):
+def presentations(rnd, traces, keep_order=False):
     """(name, list of batches) — each batch is added through its own connection"""
     out = [("reference", [list(traces)])]
     sh = list(traces)
@@ -211,10 +243,13 @@ def presentations(rnd, traces):
     # every trace recorded by its own run, the runs on different days in a random order: the store answers
     # ORDER BY date(created_at), so this is the presentation that really changes the order in which rows come back
     dd = list(traces)
-    rnd.shuffle(dd)
     days = list(range(len(dd)))
-    rnd.shuffle(days)
+    if not keep_order:          # (keep_order: the first and the last trace stay as far apart as the scenario put them)
+        rnd.shuffle(dd)
+        rnd.shuffle(days)
     out.append(("runs_on_different_days", [[t] for t in dd], days))
+    # ... and the same runs with the calendar reversed: whatever order the first presentation gave two rows, this one gives the other
+    out.append(("runs_on_different_days_reversed", [[t] for t in dd], [len(dd) - 1 - d for d in days]))
     return out
 
 
@@ -310,15 +345,15 @@ def run(ctx):
                 r = CallTraceRow.from_trace(t)
                 keys.add((r.module, r.qualname, r.arg_types, r.return_type, r.yield_type))
             sc["limit"] = len(keys) + 2          # just above the number of distinct rows; every presentation uses it
-            sc["truncating"] = (i % 5 == 2 and len(keys) > 4)
+            sc["truncating"] = (i % 5 == 2 and len(keys) > 4 and not sc.get("pressure"))
             if sc["truncating"]:
                 # fewer rows than there are distinct traces: WHICH ones come back may depend on their dates (by design of
                 # the query) but not on the order in which rows of one day were inserted
                 sc["limit"] = len(keys) - 2
             scen.append(sc)
-            for j, pres in enumerate(presentations(rnd, sc["traces"])):
+            for j, pres in enumerate(presentations(rnd, sc["traces"], keep_order=bool(sc.get("pressure")))):
                 name, batches = pres[0], pres[1]
-                if sc["truncating"] and name == "runs_on_different_days":
+                if sc["truncating"] and name.startswith("runs_on_different_days"):
                     continue
                 days = pres[2] if len(pres) > 2 else [None] * len(batches)
                 db = os.path.join(work, f"s{i}_{j}.sqlite3")
@@ -410,7 +445,7 @@ def run(ctx):
         return {
             "evaluations": len(cases), "distinct_nontrivial": len({common.digest(c["term"]) for c in good if c["presentation"] != "reference"}),
             "rule": "trace sets over a fixture module (functions, methods, classmethod, staticmethod, generator; user classes with "
-                    "single and multiple inheritance; k in {0,3}; default and no rewriter) stored in 5 presentations (reference, "
+                    "single and multiple inheritance; k in {0,3}; default and no rewriter) stored in 8 presentations (reference, one run per day in a random and in the reversed calendar order, many duplicate batches under a tight --limit, "
                     "shuffled, duplicated+shuffled, split into batches through separate connections, reversed) and stubbed by the "
                     "real CLI in separate interpreters with different PYTHONHASHSEED and junk allocations; each stub parsed and "
                     "every annotation evaluated in the stub's own namespace; non-trivial = a non-reference presentation",
@@ -440,7 +475,7 @@ CLAIM = {
             "normal types outside kf_td_under_union to equivb-equal types, so merge-then-rewrite is permutation invariant; "
             "sorting by name and distinct-row extraction are permutation invariant. The literal C14_full is refuted "
             "(C14_full_refuted, C14_rw_nonnormal_refuted, C14_rw_unrestricted_refuted) - its premises had to be strengthened. "
-            "Tie: the real CLI on 6 presentations of each trace set (order, duplication, batching/connections, --limit) in "
+            "Tie: the real CLI on 8 presentations of each trace set (order, duplication, batching/connections, --limit) in "
             "separate interpreters with different PYTHONHASHSEED and memory layout; stubs compared per position with `equivb` "
             "evaluated in Coq, and the reference stub compared with the model (shrink_top + default chain).",
     "note": "Partial only in that SQLite and CPython set order are exercised, not modelled, and that inside the recorded "
